@@ -59,7 +59,6 @@ import (
 	"golang.org/x/tools/go/ssa"
 
 	"gosym/smt"
-	
 )
 
 type continuation int
